@@ -290,7 +290,7 @@ def main():
             known_hits.setdefault(hit['id'], (hit, 0))
             known_hits[hit['id']] = (hit, known_hits[hit['id']][1] + 1)
             continue
-        if (sig, c) in seen_sig and len(violations) >= 3:
+        if (sig, c) in seen_sig:
             continue
         seen_sig.add((sig, c))
         violations.append((hs, i, c, sig))
